@@ -63,8 +63,21 @@ type Event struct {
 }
 
 type region struct {
-	id string
-	t  *sym.Term
+	id    string
+	t     *sym.Term
+	scope []string // assertion ids the region applies to; empty = everything (incl. panics)
+}
+
+func (r region) applies(assertID string) bool {
+	if len(r.scope) == 0 {
+		return true
+	}
+	for _, s := range r.scope {
+		if s == assertID {
+			return true
+		}
+	}
+	return false
 }
 
 type PanicInfo struct {
@@ -124,6 +137,10 @@ type pathState struct {
 	schedSteps  int
 	stateHook   func(g *gor)
 	inDepInit   int
+	bindings    map[*sym.Term]*sym.Term
+	substMemo   map[int]*sym.Term
+	blobs       []*protoBlob
+	syncMaps    map[*value]*smap
 }
 
 func (st *pathState) noteUninit(g *ssa.Global) {
@@ -173,6 +190,18 @@ func (st *pathState) addPC(t *sym.Term) {
 
 func (st *pathState) markTrue(t *sym.Term) {
 	st.pcSet[t.ID] = true
+	if t.Op == sym.OpEq {
+		a, b := t.Args[0], t.Args[1]
+		if a.Op == sym.OpVar && b.IsConst() {
+			st.bind(a, b)
+		} else if b.Op == sym.OpVar && a.IsConst() {
+			st.bind(b, a)
+		}
+	} else if t.Op == sym.OpVar && t.Kind == sym.KBool {
+		st.bind(t, st.ctx.True)
+	} else if t.Op == sym.OpNot && t.Args[0].Op == sym.OpVar {
+		st.bind(t.Args[0], st.ctx.False)
+	}
 	switch t.Op {
 	case sym.OpAnd:
 		for _, a := range t.Args {
@@ -187,8 +216,28 @@ func (st *pathState) markTrue(t *sym.Term) {
 	}
 }
 
+func (st *pathState) bind(v, c *sym.Term) {
+	if st.bindings == nil {
+		st.bindings = map[*sym.Term]*sym.Term{}
+	}
+	if _, ok := st.bindings[v]; ok {
+		return
+	}
+	st.bindings[v] = c
+	st.substMemo = map[int]*sym.Term{}
+}
+
+// simp folds t under the variable bindings implied by the path condition.
+func (st *pathState) simp(t *sym.Term) *sym.Term {
+	if len(st.bindings) == 0 || t.IsConst() {
+		return t
+	}
+	return st.ctx.Subst(t, st.bindings, st.substMemo)
+}
+
 // known returns (value, true) if the truth of c is syntactically determined by the path condition.
 func (st *pathState) known(c *sym.Term) (bool, bool) {
+	c = st.simp(c)
 	if c.IsTrue() {
 		return true, true
 	}
@@ -208,6 +257,7 @@ func (st *pathState) replaying() bool { return len(st.trace) < len(st.prefix) }
 
 // branch decides a symbolic condition, forking when both sides are feasible.
 func (st *pathState) branch(c *sym.Term) bool {
+	c = st.simp(c)
 	if v, ok := st.known(c); ok {
 		return v
 	}
@@ -353,6 +403,7 @@ func (st *pathState) concretize(s *symv) int64 {
 
 // assume adds c to the path condition, ending the path if it is infeasible.
 func (st *pathState) assume(c *sym.Term) {
+	c = st.simp(c)
 	if v, ok := st.known(c); ok {
 		if !v {
 			st.endPath(OutInfeasible, "assumption false")
@@ -394,10 +445,12 @@ func (st *pathState) inputName(name string) string {
 }
 
 // activeRegions returns the disjunction of the known-finding regions declared on this path.
-func (st *pathState) regionTerm() *sym.Term {
+func (st *pathState) regionTerm(assertID string) *sym.Term {
 	var ts []*sym.Term
 	for _, r := range st.regions {
-		ts = append(ts, r.t)
+		if r.applies(assertID) {
+			ts = append(ts, r.t)
+		}
 	}
 	return st.ctx.Or(ts...)
 }
@@ -410,7 +463,7 @@ func (st *pathState) checkViolation(id string, bad *sym.Term, kindViol EventKind
 	s := st.w.solver
 	vars := st.inputVars()
 	any := false
-	outside := ctx.And(bad, ctx.Not(st.regionTerm()))
+	outside := ctx.And(bad, ctx.Not(st.regionTerm(id)))
 	r, m := s.CheckModel(st.pc, vars, outside)
 	switch r {
 	case sym.Sat:
@@ -421,6 +474,9 @@ func (st *pathState) checkViolation(id string, bad *sym.Term, kindViol EventKind
 		st.events = append(st.events, Event{Kind: EvAssertUnknown, ID: id, Msg: msg})
 	}
 	for _, rg := range st.regions {
+		if !rg.applies(id) {
+			continue
+		}
 		in := ctx.And(bad, rg.t)
 		if in.IsFalse() {
 			continue
@@ -439,6 +495,7 @@ func (st *pathState) checkViolation(id string, bad *sym.Term, kindViol EventKind
 // doAssert implements vAssert.
 func (st *pathState) doAssert(id string, c *sym.Term) {
 	ctx := st.ctx
+	c = st.simp(c)
 	if c.IsTrue() {
 		st.events = append(st.events, Event{Kind: EvAssertHolds, ID: id, Concrete: true})
 		return
